@@ -20,6 +20,13 @@ def gen(rng, tier):
                 k = contents(rng, kl); m = contents(rng, ml)
                 cases.append(Case("hmac %s %s %s" % (t, hexs(k), hexs(m)), "%s %s kl=%d m%%B=%d" % (t, kc(kl), kl if kl <= b + 1 else -1, ml % b), True,
                                   spec="spec.hmac %s %s %s" % (t, hexs(k), hexs(m))))
+        # MACs with a special value (trailing / leading zero byte, 0xFF, newline ...): binary and hex string forms, every key form
+        for name, pred in DIGEST_PREDS:
+            k = contents(rng, rng.choice([5, 20, b + 1]), "rand"); m = mine_hmac_message(rng, t, k, pred)
+            if m is not None:
+                cases.append(Case("hmac %s %s %s" % (t, hexs(k), hexs(m)), "%s mac-%s" % (t, name), True, spec="spec.hmac %s %s %s" % (t, hexs(k), hexs(m))))
+                for ih in (0, 1):
+                    cases.append(Case("hmacstr %s %s %s %d 0" % (t, hexs(k), hexs(m), ih), "%s str mac-%s hex=%d" % (t, name, ih), True, spec="spec.hmacstr %s %s %s %d 0" % (t, hexs(k), hexs(m), ih)))
         # coinciding operands: key and message are the same bytes / the same length
         for n in [1, d, b, b + 1]:
             k = contents(rng, n, "rand"); m2 = contents(rng, n, "rand")
